@@ -6,7 +6,7 @@ use crate::props::monitors::{short, Mon};
 use crate::sim::driver::*;
 use crate::sim::world::*;
 use serde_json::{json, Value};
-use std::collections::BTreeMap;
+use std::collections::{BTreeMap, BTreeSet};
 
 const KEYS: [&str; 8] = [
     "last_update_time",
@@ -276,7 +276,7 @@ pub fn run(args: &Args, r: &mut Report) {
         excluded); (6) metrics sink failing.  Monitors: panic hook (catch_unwind per case), abnormal exit, bounded progress in \
         driver steps (never wall-clock), lost wake-ups.  Shape key = workload + hostile-value classes + path.  Every case is non-trivial."
         .into();
-    r.require(&["c14-every-check-delivers-result", "c14-no-lost-wakeup", "c14-storage-faults-invisible", "c14-case-ran"]);
+    r.require(&["c14-every-check-delivers-result", "c14-no-lost-wakeup", "c14-storage-faults-invisible", "c14-storage-fault-confined-to-its-entry", "c14-case-ran"]);
     r.assume("policy and installer doubles respect their documented contracts; the monotonic clock never goes backwards");
     let n = args.budget(10_000, 300_000);
     for i in 0..n {
@@ -426,6 +426,39 @@ pub fn run(args: &Args, r: &mut Report) {
                     continue;
                 }
                 judge_progress(&mut m, &run2, &c2, "storage-fault");
+                // a refused write is confined to its own entry: every other entry of the protocol book-keeping that
+                // does not hold a time (poll interval, failure counter, per-app records) ends up on disk as in the
+                // healthy run (judged when no commit was refused and the runs are otherwise alike)
+                {
+                    let final_store = |w: &W| -> (Option<BTreeMap<String, Val>>, BTreeSet<String>, bool) {
+                        let g = lock(w);
+                        let mut snap = None;
+                        let mut failed = BTreeSet::new();
+                        let mut commit_failed = false;
+                        for r in g.log.iter() {
+                            match &r.ev {
+                                Ev::Commit { ok: true, snapshot } => snap = Some(snapshot.clone()),
+                                Ev::Commit { ok: false, .. } => commit_failed = true,
+                                Ev::StorageSet { key, ok: false, .. } | Ev::StorageRemove { key, ok: false } => {
+                                    failed.insert(key.clone());
+                                }
+                                _ => {}
+                            }
+                        }
+                        (snap, failed, commit_failed)
+                    };
+                    let (hs, _, _) = final_store(&run.w);
+                    let (fs, failed, commit_failed) = final_store(&run2.w);
+                    if let (Some(hs), Some(fs), false) = (hs, fs, commit_failed) {
+                        let timeless = |k: &str| !["last_update_time", "install_plan_id", "update_first_seen_time", "update_finish_time", "target_version", "consecutive_failed_install_attempts"].contains(&k);
+                        let keys: BTreeSet<&String> = hs.keys().chain(fs.keys()).filter(|k| timeless(k) && !failed.contains(*k)).collect();
+                        let diff: Vec<&&String> = keys.iter().filter(|k| hs.get(**k) != fs.get(**k)).collect();
+                        m.judge("c14-storage-fault-confined-to-its-entry", diff.is_empty(), "", || {
+                            format!("fault plan {:?}: writes to {:?} were refused, yet the stored entries {:?} differ from the healthy run's (healthy {:?}, faulty {:?})",
+                                fp, failed, diff, diff.iter().map(|k| hs.get(**k)).collect::<Vec<_>>(), diff.iter().map(|k| fs.get(**k)).collect::<Vec<_>>())
+                        });
+                    }
+                }
                 let faulty = digest(&run2.w);
                 let same = healthy == faulty;
                 m.judge("c14-storage-faults-invisible", same, flab.trim_end_matches(char::is_numeric).trim_end_matches('@'), || {
